@@ -44,4 +44,73 @@ META = {"level": LEVEL,
         "note": "Uses ioflo's own report of the active frame to compute the expected list (the active frame itself is cross-checked by the C07 differential and the C06 enter/exit bookkeeping).",
         "technique": "Hypothesis program generation + per-run history invariant against AST-computed outline + reference differential",
         "design_ref": "DESIGN.md section 3, C05"}
-plan, work, replay = CHECK.plan, CHECK.work, CHECK.replay
+# ------------------------------------------------------------------ the `under` verb (primary child override)
+import itertools
+
+from vp.core.acc import Acc
+
+UNDER_FRAMES = ["work", "a", "b", "c", "d"]     # a, b, c in work; d in b
+
+
+def under_script(order, target):
+    L = ["house h", "framer main be active first work"]
+    for f in order:
+        if f == "work":
+            L += ["frame work", "under %s" % target]
+        elif f == "d":
+            L.append("frame d in b")
+        else:
+            L.append("frame %s in work" % f)
+    return "\n".join(L) + "\n"
+
+
+def check_under(case):
+    """Frame `work` names its primary child with `under <target>`; the frames are declared in any order (parent before,
+    between or after its children). The active outline of the framer must run through the named child, down its own
+    primary chain. -> failures"""
+    from vp.flo.run import run_text
+    text = under_script(case["order"], case["target"])
+    tr = run_text(text, 3)
+    if tr["build"] != "True" or tr.get("exc"):
+        return [("under-build:%s" % (tr.get("exc") or tr["build"]), "build %s %s\n%s" % (tr["build"], tr.get("detail"), text))]
+    want = ["work", case["target"]] + (["d"] if case["target"] == "b" else [])
+    fails = []
+    for k, tk in enumerate(tr["ticks"]):
+        got = (tk["snap"]["framers"].get("main") or {}).get("actives")
+        if got != want:
+            fails.append(("under-override-not-primary", "frames declared in the order %r, `under %s` in frame work: after tick %d the "
+                          "active frames are %r, the outline through the named primary child is %r\n%s"
+                          % (case["order"], case["target"], k, got, want, text)))
+            break
+    return fails
+
+
+def plan(tier):
+    return CHECK.plan(tier) + [{"part": "under", "i": i, "n": 2} for i in range(2)]
+
+
+def work(shard, seed, tier):
+    if shard.get("part") != "under":
+        return CHECK.work(shard, seed, tier)
+    acc = Acc()
+    k = 0
+    for order in itertools.permutations(UNDER_FRAMES):
+        for target in ("a", "b", "c"):
+            k += 1
+            if k % shard["n"] != shard["i"]:
+                continue
+            case = {"under": True, "order": list(order), "target": target}
+            fails = check_under(case)
+            acc.case(key=("under", order, target), nontrivial=order.index("work") > 0,
+                     classes=["under-verb", "under:parent-declared-%s" % ("first" if order.index("work") == 0 else "after-children")],
+                     sample={"script": under_script(order, target)} if k % 97 == 1 else None)
+            for sig, what in fails:
+                acc.fail(sig, what, case)
+    acc.note("`under` override: all 120 declaration orders of 5 frames x 3 targets enumerated")
+    return acc
+
+
+def replay(case):
+    if case.get("under"):
+        return check_under(case)
+    return CHECK.replay(case)
